@@ -19,7 +19,7 @@ def _small(args):
             vals = vals[:1]
         o = obs_infer(fx, np, [pid], vals, row['sa'], row['given'], row['nw'], row['nf'], row['ni'], row['cap'],
                       carrier='scalar' if len(vals) == 1 else ['list', 'ndarray'][(row['v1'] + row['v2']) % 2],
-                      prior=((row['v1'] + 3 * row['v2']) % 5 == 0))
+                      prior=((row['v1'] + 3 * row['v2']) % 5 == 0), raw=(row['given'] in ('f', 'if') and (row['v1'] + row['v2']) % 3 == 0))
         o['nat'] = True
         out.append(o)
     return out
@@ -64,7 +64,7 @@ def _wide(args):
             ni = ineed + rng.randint(0, 2)
             nw = min(64, ni + sg + fneed + rng.randint(0, 2))
         carrier = 'scalar' if n == 1 else rng.choice(['list', 'ndarray', 'tuple'])
-        out.append(obs_infer(fx, np, [pid], vals, sa, given, nw, nf, ni, 64, carrier=carrier, prior=rng.random() < 0.3))
+        out.append(obs_infer(fx, np, [pid], vals, sa, given, nw, nf, ni, 64, carrier=carrier, prior=rng.random() < 0.3, raw=(given in ('f', 'if') and rng.random() < 0.5)))
         # the same through narrow NumPy carriers, when every value is exactly representable in the dtype
         for nt in ('float32', 'float16', 'int32', 'int16', 'int8'):
             tp = getattr(np, nt)
